@@ -50,7 +50,7 @@ UNIT = UnitV()
 
 class IntV(V):
     kind = "int"
-    __slots__ = ("ty", "w", "signed", "bits", "lo", "hi", "aff", "exact", "vid", "lineage", "pred", "full", "excl")
+    __slots__ = ("ty", "w", "signed", "bits", "lo", "hi", "aff", "exact", "vid", "lineage", "pred", "full", "excl", "sym")
 
     def __init__(self, ty, bits, lo, hi, aff=None, exact=False, lineage=frozenset(), pred=None, vid=None, full=False,
                  excl=frozenset()):
@@ -64,6 +64,9 @@ class IntV(V):
         self.lo = max(lo, tlo)
         self.hi = min(hi, thi)
         self.aff = aff
+        # the symbolic identity of the value survives a refinement to a single point (where aff becomes the constant):
+        # a join of two refinements of one value gets it back
+        self.sym = aff
         self.exact = exact
         self.vid = vid if vid is not None else next(_vid)
         self.lineage = lineage | {self.vid}
@@ -297,6 +300,8 @@ def vjoin(a, b, cd, widen=False):
             if b.hi > a.hi:
                 hi = thi
         aff = a.aff if (a.aff is not None and a.aff == b.aff) else None
+        if aff is None and a.sym is not None and a.sym == b.sym:
+            aff = a.sym   # both are the same symbolic value, constrained differently on the two branches
         return IntV(a.ty, bits, lo, hi, aff, False, a.lineage | b.lineage, excl=excl_j)
     if a.kind == "ref":
         return a if a.loc == b.loc else TopV("&", cd)
@@ -788,6 +793,15 @@ class Interp:
             if ty == "bool" and op in ("BitAnd", "BitOr") and not (a.is_const() or b.is_const()):
                 r = IntV("bool", bits, 0, 1, None, False, lin, pred=("and" if op == "BitAnd" else "or", a, b))
                 return r
+            if ty == "bool" and op == "BitXor" and not (a.is_const() or b.is_const()):
+                # remembered for the rules that compare flag formulas; assume_bool ignores it
+                return IntV("bool", bits, 0, 1, None, False, lin, pred=("xor", a, b))
+            if op == "BitAnd" and ty != "bool":
+                # x & 2^k : which single bit of which value is looked at (read by `!= 0` / `== 0` tests in the flag rules)
+                for x_, y_ in ((a, b), (b, a)):
+                    if y_.is_const() and y_.lo > 0 and (y_.lo & (y_.lo - 1)) == 0 and not x_.is_const() and x_.aff is not None:
+                        k_ = y_.lo.bit_length() - 1
+                        return IntV(ty, bits, 0, y_.lo, None, False, lin, pred=("bit", x_, k_))
             aff = None
             lo, hi = tlo, thi
             ex = False
